@@ -6,7 +6,7 @@ a position argument of `MemRegion::add/get` is represented by `none`),
 * `abstract_domain/data/trait_impl.rs`: `AbstractDomain::merge` of `DataDomain<IntervalDomain>`
   (`DData.merge`; the interval merge is the model `C03.signedMergeAndWiden` of `signed_merge_and_widen`),
 * `analysis/pointer_inference/object/value_access.rs`: `AbstractObject::get_value`, `set_value`, `merge_value`
-  (an object = `is_unique` + `MemRegion<Data>`; `pointer_targets` and `type_` never influence a value and are
+  (an object = `is_unique` + `pointer_targets` + `MemRegion<Data>`; `type_` never influences a value and is
   not modelled; the region model is the shared `Base/MemRegion.lean` of C05),
 * `analysis/pointer_inference/object_list/mod.rs`: `AbstractObjectList::get_value`, `set_value`,
 * `analysis/pointer_inference/state/access_handling.rs`: `store_value`, `write_to_address`, `handle_store`,
@@ -93,9 +93,19 @@ def offsetPos (o : IntervalDomain) : Option (Option Int) :=
   | some c => some (if o.interval.w = 64 then tryToI64 64 c else none)
   | none => none
 
-/-- `AbstractObject` as far as values are concerned: `is_unique` and `memory` -/
+/-- `BTreeSet<AbstractIdentifier>::insert` on the sorted list of identifier numbers -/
+def insertId (k : Nat) : List Nat → List Nat
+  | [] => [k]
+  | k' :: rest => if k < k' then k :: k' :: rest else if k = k' then k' :: rest else k' :: insertId k rest
+
+/-- `set.extend(ids)` -/
+def unionIds (a b : List Nat) : List Nat := b.foldl (fun m k => insertId k m) a
+
+/-- `AbstractObject` as far as values and the reachability of objects are concerned: `is_unique`,
+`pointer_targets` (sorted) and `memory`; `type_` never influences a value and is not modelled -/
 structure Obj where
   unique : Bool
+  targets : List Nat := []
   mem : Region DData
 deriving DecidableEq, Repr
 
@@ -104,9 +114,13 @@ namespace Obj
 /-- `AbstractObject::get_value` for an offset that passed `offsetPos` -/
 def getValue (o : Obj) (pos : Int) (size : Nat) : DData := MemRegion.get o.mem pos size
 
+/-- `inner.pointer_targets.extend(value.referenced_ids().cloned())` -/
+def addTargets (o : Obj) (value : DData) : Obj := { o with targets := unionIds o.targets (value.rel.map (·.1)) }
+
 /-- `AbstractObject::set_value`; `none` = panic (size assertion of `insert_at_byte_index`, width assertion of
 `add`, `BTreeMap::range` with a reversed range) -/
-def setValue (o : Obj) (value : DData) (offset : IntervalDomain) : Option Obj :=
+def setValue (o0 : Obj) (value : DData) (offset : IntervalDomain) : Option Obj :=
+  let o := o0.addTargets value
   match offsetPos offset with
   | some none => none
   | some (some c) =>
@@ -120,7 +134,8 @@ def setValue (o : Obj) (value : DData) (offset : IntervalDomain) : Option Obj :=
     | none => some { o with mem := markAllValuesAsTop o.mem }
 
 /-- `AbstractObject::merge_value` -/
-def mergeValue (o : Obj) (value : DData) (offset : IntervalDomain) : Option Obj :=
+def mergeValue (o0 : Obj) (value : DData) (offset : IntervalDomain) : Option Obj :=
+  let o := o0.addTargets value
   match offsetPos offset with
   | some none => none
   | some (some c) =>
@@ -130,6 +145,10 @@ def mergeValue (o : Obj) (value : DData) (offset : IntervalDomain) : Option Obj 
     match tryToOffsetInterval offset with
     | some (s, e) => (markIntervalValuesAsTop o.mem s e value.size).map fun m => { o with mem := m }
     | none => some { o with mem := markAllValuesAsTop o.mem }
+
+/-- `AbstractObject::assume_arbitrary_writes` -/
+def assumeArbitraryWrites (o : Obj) (additional : List Nat) : Obj :=
+  { o with mem := markAllValuesAsTop o.mem, targets := unionIds o.targets additional }
 
 end Obj
 
